@@ -20,7 +20,7 @@ RULE = ("one case = one basis string (all 3^n strings over {X,Y,Z} for n<=4 enum
         "explicit complex psi / Hermitian rho (PSD, indefinite, real symmetric) with several outcome batches. "
         "Non-trivial: string is not all-Z and not a single repeated letter, explicit inputs have non-zero imaginary "
         "part; distinct by (n, string, dictionary digest).")
-REQUIRED = ["contract_evals.unitaries.rotate_psi", "contract_evals.unitaries.rotate_rho",
+REQUIRED = ["second_dictionary_same_letters", "contract_evals.unitaries.rotate_psi", "contract_evals.unitaries.rotate_rho",
             "contract_evals.unitaries.rotate_psi_inner_prod", "contract_evals.unitaries.rotate_rho_probs",
             "explicit_rho_calls", "explicit_psi_calls", "dictionary_checks", "driven_contract_evals",
             "physical_state_checks"]
@@ -259,6 +259,17 @@ def run_case(case, ctx):
         # the same through the unitaries= argument on a state that holds the default dictionary
         sts2 = make_states(rng, n, kinds=("complex", "mixed"))
         exercise(ctx, rng, n, basis, udict_t, sts2, {"string": basis, "user_dict": True}, pass_unitaries=True)
+        # history: a SECOND dictionary in the same process re-using the same letters with different matrices
+        # (and, when a default letter is overridden, a basis that contains it): results must follow the dictionary given
+        ud_b = {l: gen.haar_2x2(rng) for l in ud}
+        udict_b = unitaries.create_dict(**{k: gen.enc(v) for k, v in ud_b.items()})
+        basis_b = basis
+        if "X" in ud_b and "X" not in basis_b:
+            basis_b = "X" + basis_b[1:]
+        sts3 = make_states(rng, n, udict_t=udict_b, kinds=("complex", "mixed"))
+        exercise(ctx, rng, n, basis_b, udict_b, sts3, {"string": basis_b, "user_dict": True, "second_dictionary": True})
+        exercise(ctx, rng, n, basis_b, udict_b, sts2, {"string": basis_b, "user_dict": True, "second_dictionary": True}, pass_unitaries=True)
+        ctx.count("second_dictionary_same_letters")
         ctx.mark_nontrivial("user:" + monitors.digest([basis, {k: v for k, v in ud.items()}]))
         ctx.seen("user_dictionary_sizes", len(ud))
     else:
